@@ -4116,6 +4116,9 @@ void SoPlexBase<R>::_untransformEquality(SolRational& sol)
    _realLP->removeColRange(numOrigCols, numCols - 1);
    _colTypes.reSize(numOrigCols);
 
+   // the slack columns are gone: a later solve without the equality transformation must not see them
+   _slackCols.clear();
+
    // objective, bounds, and sides of real LP are restored only after _solveRational()
 
    // print LP if in debug mode
